@@ -101,9 +101,18 @@ mutual
   partial def toArm : Sexp → Option SwitchArm
     | .list [.atom "arm", p, b] => do some (.mk (← toPat p) (← toExpr b))
     | _ => none
+  /-- `(param name splat)`, `(param name splat D)` (a bare default, the form used before annotations
+  existed), or tagged fields in any order: `(param name splat (dflt D) (ann T))` -/
   partial def toParam : Sexp → Option Param
-    | .list [.atom "param", .atom x, .atom s] => some (.mk x none (s == "1"))
-    | .list [.atom "param", .atom x, .atom s, d] => do some (.mk x (some (← toExpr d)) (s == "1"))
+    | .list (.atom "param" :: .atom x :: .atom s :: fields) => do
+      let mut dflt : Option Expr := none
+      let mut ann : Option Expr := none
+      for f in fields do
+        match f with
+        | .list [.atom "dflt", d] => dflt := some (← toExpr d)
+        | .list [.atom "ann", t] => ann := some (← toExpr t)
+        | d => dflt := some (← toExpr d)
+      some (.mk x dflt (s == "1") ann)
     | _ => none
 end
 
